@@ -299,6 +299,8 @@ package main
 //@     invariant term_monotone: c.fo.term >= old(c.fo.term)
 //@     iterates [C17] term_never_decreases: c.fo.term >= prev(c.fo.term)
 //@     iterates [C17] step_down: prev(c.fo.leader) == c.thisNodeName && c.fo.term > prev(c.fo.term) ==> c.fo.leader != c.thisNodeName
+//@     iterates [C17] one_vote_per_term: forall ch chan ClusterVoteResponse :: sent(ch) > prev(sent(ch)) && last(ch).Result ==> c.fo.term > prev(c.fo.term) && last(ch).Term == c.fo.term && c.fo.leader == ""
+//@     iterates [C17] stale_ignored: c.fo.term == prev(c.fo.term) && prev(c.fo.leader) != "" ==> c.fo.leader == prev(c.fo.leader) || c.fo.leader != c.thisNodeName
 //@     iterates [C17] leader_only_by_election: c.fo.leader == c.thisNodeName && prev(c.fo.leader) != c.thisNodeName ==> c.fo.term == prev(c.fo.term) + 1 && prev(missed) + 1 >= c.fo.voteTimeout
 
 // A node whose ring differs from the sender's refuses topic traffic - on every request, not only the first.
